@@ -222,6 +222,10 @@ class paint_to_svg_leaf_paints:
     # paint graph is a DAG, so the induction over it is well-founded)
     returns = Const(None)
     modular_ensures = {}
+    assumes = (
+        "recursion hypothesis: a recursive call is summarised by this function's own contracts; the induction is over the paint graph, which is assumed acyclic (termination of the recursion is not proved)",
+        "the per-level accounting clauses imply the per-leaf statement by induction over the graph (argument in the contract module's comment, not machine-checked)",
+    )
     ensures = {
         "gradient-gets-the-pending-transform": lambda ot_paint, transform, font_to_vbox, calls: ot_paint.Format == 2
         or (
